@@ -261,6 +261,9 @@ func (s *simController) SendToProposer(msg lib.Signable) {
 	if !ok {
 		return
 	}
+	if n.w.cfg.byzActive && n.w.adv.hidesLock(n.idx, to, m) {
+		return
+	}
 	n.w.send(n.idx, to, bz, describe(m))
 }
 
